@@ -447,18 +447,35 @@ def run_shards(binp, work, pid, tier, run, seed, known_open, variant):
             cdir = os.path.join(VERIF, "corpus", run["test"].strip("^$"))
             if os.path.isdir(cdir):
                 shutil.copytree(cdir, os.path.join(cwd, "testdata", "fuzz", run["test"].strip("^$")), dirs_exist_ok=True)
-        p = subprocess.Popen(cmd, cwd=cwd, env=env, stdout=subprocess.PIPE, stderr=subprocess.STDOUT, text=True, preexec_fn=limit_mem(variant))
+        # output goes to a file, not a pipe: the shards are waited for one after the other, and a shard whose pipe is
+        # full blocks inside whatever wrote to stderr (net/http logging from a request handler, for one)
+        lf = open(os.path.join(out, "shard-output.log"), "w")
+        p = subprocess.Popen(cmd, cwd=cwd, env=env, stdout=lf, stderr=subprocess.STDOUT, text=True, preexec_fn=limit_mem(variant))
+        lf.close()
         procs.append((i, p, out, cwd, sseed, per))
     res = []
+
+    def output_of(out):
+        try:
+            with open(os.path.join(out, "shard-output.log"), errors="replace") as f:
+                f.seek(0, 2)
+                n = f.tell()
+                f.seek(max(0, n - (8 << 20)))
+                return f.read()
+        except OSError:
+            return ""
+
     for i, p, out, cwd, sseed, per in procs:
         try:
-            o, _ = p.communicate(timeout=(run["fuzz"] + 600) if run.get("fuzz") else run["timeout"][tier] + 120)
+            p.wait(timeout=(run["fuzz"] + 600) if run.get("fuzz") else run["timeout"][tier] + 120)
+            o = output_of(out)
         except subprocess.TimeoutExpired:
             try:
                 os.killpg(p.pid, signal.SIGKILL)
             except Exception:
                 pass
-            o, _ = p.communicate()
+            p.wait()
+            o = output_of(out)
             o = (o or "") + "\n[driver] shard killed after driver timeout"
             res.append(dict(shard=i, rc=-9, out=o, outdir=out, cwd=cwd, seed=sseed, per=per))
             continue
